@@ -22,10 +22,11 @@ PID = "C03"
 
 def mc(chk, tier, d):
     jobs = []; outs = []
-    for k in range(16):
+    per = 16 if tier == "quick" else 2          # TLC sets hold at most 10^6 elements: keep each slice's domain below that
+    for k in range(256 // per):
         cfg = os.path.join(d, "rtlmc%d.cfg" % k); o = os.path.join(d, "rtlmc%d.out" % k)
         open(cfg, "w").write("INIT Init\nNEXT Next\nCONSTANTS\n  BPW = 2\n  MemWords = 24\n  PCW = 6\n  AW = 5\n  ByteLo = %d\n  ByteHi = %d\n  Tier = \"%s\"\nCHECK_DEADLOCK FALSE\n"
-                             % (16 * k, 16 * k + 15, tier))
+                             % (per * k, per * k + per - 1, tier))
         jobs.append(dict(module="HexRTLMC", cfg=cfg, workers=1, env={"OUT": o}, heap="3g", timeout=7200)); outs.append(o)
     vlib.tlc_parallel(jobs, nproc=vlib.NCPU)
     total = inside = 0
